@@ -154,11 +154,37 @@ def main(argv):
         if tier == 'thorough':
             keys += list(P.get('functions_thorough', []))
         outside = []
-        for key in keys:
+        # dependency closure: a property also rests on the callees whose contracts its functions assume.  Every such
+        # callee whose body some registered check verifies is verified here too (with the obligations that check
+        # selects), transitively, so that a change inside a callee is seen by every property that depends on it.
+        verified_elsewhere = {}
+        for pid2_, P2_ in props.PROPS.items():
+            for k2_ in P2_.get('functions', []):
+                o2_ = None
+                if isinstance(k2_, (tuple, list)):
+                    k2_, o2_ = k2_
+                rk_ = prog.resolve(k2_)
+                prev_ = verified_elsewhere.get(rk_, 'absent')
+                if prev_ == 'absent':
+                    verified_elsewhere[rk_] = (k2_, dict(o2_) if o2_ else None)
+                elif prev_[1] is not None:
+                    if not o2_ or 'only' in o2_ or 'only' in prev_[1]:
+                        verified_elsewhere[rk_] = (prev_[0], None if not o2_ else prev_[1])
+                    else:
+                        verified_elsewhere[rk_] = (prev_[0], {'match': sorted(set(prev_[1].get('match', [])) | set(o2_.get('match', [])))})
+        listed_ = set()
+        for k_ in keys:
+            listed_.add(prog.resolve(k_[0] if isinstance(k_, (tuple, list)) else k_))
+        dep_of = {}
+        qi_ = 0
+        while qi_ < len(keys):
+            key = keys[qi_]
+            qi_ += 1
             only = None
             match = None
             if isinstance(key, (tuple, list)):
                 key, opts = key
+                opts = opts or {}
                 only = opts.get('only')
                 match = opts.get('match')
             shown_key = key
@@ -229,6 +255,17 @@ def main(argv):
                 tasks.append((key, ps_, sp_.to_smt2(), 'point'))
             fr['obligations'] = len(V.obls) - len([o for o in outside if o.startswith(V.shown + '#')])
             fr['assumed_callee_contracts'] = sorted(getattr(V, 'used_contracts', ()))
+            if key in dep_of:
+                fr['included_as_dependency_of'] = dep_of[key]
+            if not os.environ.get('GOVC_NO_DEPS') and not P.get('no_dependency_closure'):
+                for ck_ in sorted(getattr(V, 'used_contracts', ())):
+                    rk_ = prog.resolve(ck_)
+                    if rk_ in listed_ or rk_ not in verified_elsewhere or rk_ not in prog.funcs or not prog.funcs[rk_]['blocks']:
+                        continue
+                    listed_.add(rk_)
+                    dep_of[rk_] = shown_key
+                    nm_, o_ = verified_elsewhere[rk_]
+                    keys.append((nm_, o_) if o_ else nm_)
             # vacuity guards: preconditions satisfiable, exit reachable
             s = z3.Solver()
             for h in V.global_hyps:
